@@ -2,7 +2,7 @@
 # seed_reconfirm_all.sh: re-confirm every stored seed against /repo's current HEAD (patch applies, suite passes with it,
 # demonstration fails with it and passes without), 5 at a time; writes bin/seed_reconfirm.txt
 cd "$(dirname "$0")/.."
-OUT=bin/seed_reconfirm.txt; : > $OUT
+export OUT=/verif/bin/seed_reconfirm.txt; : > $OUT
 one() {
   s=$1; flags=""
   case $s in C14-*|C12-r3m1|C12-r2m1) flags="-race";; esac
